@@ -178,7 +178,7 @@ func propC18(c tableCase, o *hx.Obs) *hx.Failure {
 				n++
 			}
 		}
-		o.Evals(int(n)*4*3 - 1)
+		o.Evals(int(n) * 4 * 3)
 		o.NTBulk(fmt.Sprintf("sliding-%d", sq), n-2) // all subsets except the two empty ones have a blocker on a line
 	case "sliding-random":
 		if f := checkSliding(sq, c.Occ); f != nil {
@@ -207,7 +207,7 @@ func propC18(c tableCase, o *hx.Obs) *hx.Failure {
 		if g := uint64(GetPawnAttacks(Black, S)); g != gStep(sq, [][2]int{{-1, -1}, {1, -1}}) {
 			return hx.Failf("C18/attacks/pawn-black", "GetPawnAttacks(Black,%s)=%s", S.String(), bbStr(g))
 		}
-		o.Evals(8)
+		o.Evals(9)
 		o.NT("")
 	case "rays-and-steps":
 		for ori, d := range oriDelta {
@@ -228,7 +228,7 @@ func propC18(c tableCase, o *hx.Obs) *hx.Failure {
 				return hx.Failf("C18/shift/"+dir.String(), "ShiftBitboard(%s,%s)=%s", S.String(), dir.String(), bbStr(g))
 			}
 		}
-		o.Evals(23)
+		o.Evals(24)
 		o.NT("")
 	case "pairs":
 		for b := 0; b < 64; b++ {
@@ -250,7 +250,7 @@ func propC18(c tableCase, o *hx.Obs) *hx.Failure {
 				return hx.Failf("C18/rank-distance", "RankDistance(%s,%s)=%d", S.String(), Square(b).String(), g)
 			}
 		}
-		o.Evals(64*5 - 1)
+		o.Evals(64 * 5)
 		o.NTBulk(fmt.Sprintf("pairs-%d", sq), 64)
 	case "masks":
 		var west, east, north, south, fw, fe uint64
@@ -332,7 +332,7 @@ func propC18(c tableCase, o *hx.Obs) *hx.Failure {
 		if int(S.FileOf()) != f0 || int(S.RankOf()) != r0 || SquareOf(File(f0), Rank(r0)) != S || MakeSquare(S.String()) != S {
 			return hx.Failf("C18/square-coordinates", "file/rank/SquareOf/MakeSquare of %s", S.String())
 		}
-		o.Evals(19)
+		o.Evals(20)
 		o.NT("")
 	case "shift-random":
 		for dir, d := range dirDelta {
@@ -354,7 +354,7 @@ func propC18(c tableCase, o *hx.Obs) *hx.Failure {
 				return hx.Failf("C18/bits/poplsb", "PopLsb(%s)", bbStr(c.Occ))
 			}
 		}
-		o.Evals(11)
+		o.Evals(12)
 		if c.Occ&0xff818181818181ff != 0 {
 			o.NT("")
 		}
@@ -376,7 +376,7 @@ func propC18(c tableCase, o *hx.Obs) *hx.Failure {
 				return hx.Failf("C18/deprecated/"+l.name, "%s(%s,%s)=%s want %s", l.name, S.String(), bbStr(occ), bbStr(uint64(l.got)), bbStr(w))
 			}
 		}
-		o.Evals(3)
+		o.Evals(5)
 		if occ&(gSlide(sq, gRookDirs, 0)|gSlide(sq, gBishopDirs, 0)) != 0 {
 			o.NT("")
 		}
@@ -391,7 +391,7 @@ func propC18(c tableCase, o *hx.Obs) *hx.Failure {
 		if uint64(CenterSquares) != center {
 			return hx.Failf("C18/mask/center-squares", "CenterSquares=%s", bbStr(uint64(CenterSquares)))
 		}
-		o.Evals(4)
+		o.Evals(5)
 		o.NT("")
 	}
 	return nil
